@@ -142,6 +142,7 @@ func (d *drv) random(t int, rnd *rand.Rand, perTrace int) {
 	}
 	for _, s := range []string{"", " ", "\t", "()", "(", ")", "!", "&&", "a", "a ==", `a == "`, `a == 'x`, "has()", "has(", "all(", "global(",
 		"all( )", "global(\t)", "has( a )", "a in {}", "a not in {}", "a notin {}", `a in {"x",}`, `a in {,}`, `a in {"x" "y"}`, "\n",
+		`!(!has(a))`, `!(!(!has(a)))`, `!((!has(a)))`, `!( !a == "x" )`, `!(!(a == "x" && has(b)))`, `!(!(!(!all())))`, `!!(!has(a))`, `!(!!has(a))`,
 		`a == "x"` + "\n", strings.Repeat("a", 512) + ` == "x"`, strings.Repeat("a", 513) + ` == "x"`, "has(" + strings.Repeat("b", 513) + ")"} {
 		d.expr(s, "fixed")
 	}
@@ -196,10 +197,13 @@ func main() {
 		t++
 		d.random(t, rand.New(rand.NewSource(env.Seed*1000003+int64(i))), per)
 	}
-	// the known C06 finding (negations separated by parentheses), in a trace of its own
+	// regression cases of the C06 finding fixed in /repo 88cb2cf (negations separated by parentheses:
+	// the canonical text "!!has(a)" used to re-parse to "has(a)"), in a trace of their own
 	t++
 	d.start(t, []string{"a"}, []string{"x"})
-	d.expr("!(!has(a))", "fixed")
+	for _, s := range []string{"!(!has(a))", "!(!(!has(a)))", "!((!has(a)))", `!( !a == "x" )`, `!(!(a == "x" || has(a)))`} {
+		d.expr(s, "fixed")
+	}
 	if err := lg.Close(); err != nil {
 		fmt.Fprintln(os.Stderr, err)
 		os.Exit(2)
